@@ -1,5 +1,7 @@
 """Self-test variants for C03 (entry points agree; rejections are the configured violation)."""
-from .variant import Variant, seeded, neutral, sub, chain
+import ast
+
+from .variant import Variant, seeded, neutral, sub, chain, tseeded, replace_where
 
 EMAP = 'beartype/_check/error/_errmap.py'
 LOG = 'beartype/_check/cls/logic/logcls.py'
@@ -11,6 +13,9 @@ DFC = 'beartype/_data/check/code/func/datacodefunccheck.py'
 E586 = 'beartype/_check/error/_pep/errpep586.py'
 EMP = 'beartype/_check/error/_pep/pep484585/errpep484585mapping.py'
 ECON = 'beartype/_check/error/_pep/pep484585/errpep484585container.py'
+E593 = 'beartype/_check/error/_pep/errpep593.py'
+VBIN = 'beartype/vale/_core/_valecorebinary.py'
+VCORE = 'beartype/vale/_core/_valecore.py'
 FLOOR_APPLIED = 12
 
 VARIANTS = {
@@ -75,6 +80,14 @@ VARIANTS = {
     'entry-raises-under-maximal-verbosity': seeded(ERM, "    violation_verbosity = conf.violation_verbosity\n",
                                                    "    violation_verbosity = conf.violation_verbosity\n    if violation_verbosity is BeartypeViolationVerbosity.MAXIMAL and pith_name is None:\n        raise ValueError('verbose door violations unsupported')\n",
                                                    'C03.R4', 'a rejection turns into a non-violation exception for one configuration'),
+    # ---- R8 / R9: user validators in the explanation ------------------------------------
+    'annotated-finder-calls-every-validator': seeded(E593, "            break\n", "            pass\n", 'C03.R8',
+                                                     'a validator that raises on an object an earlier one rejects turns the rejection into its exception'),
+    'binary-diagnosis-unguarded-again': seeded(VBIN, "        if is_shortcircuited:\n            try:\n                is_obj_valid = self.is_valid(obj)\n            except Exception:\n                pass\n        else:\n            is_obj_valid = self.is_valid(obj)\n",
+                                               "        is_obj_valid = self.is_valid(obj)\n", 'C03.R9',
+                                               'the defect repaired by the fix commit (F21), reintroduced for & and |'),
+    'leaf-diagnosis-unguarded': tseeded(VCORE, lambda t: replace_where(
+        t, lambda n: isinstance(n, ast.Try) and 'self.is_valid(obj)' in ast.unparse(n), lambda n: n.body, scope='get_diagnosis'), 'C03.R9'),
     # ---- neutral ------------------------------------------------------------------
     'n-errmap-reorder-specifics': Variant('neutral', [EMAP], chain(
         sub(EMAP, "        HintSignLiteral: find_cause_pep586_literal,\n", ""),
